@@ -10,7 +10,7 @@ ID="$1"; TIER="${2:-quick}"
 REPO="${VERIF_REPO:-/repo}"
 ./build.sh >&2 || { echo "checker build failed"; echo "VIOLATION property=$ID replay=/verif/evidence/$ID.violation.txt"; exit 1; }
 mkdir -p evidence
-rm -f "evidence/$ID.sensitivity.json"
+rm -f "sensitivity/$ID.json"
 if [ "$TIER" = "thorough" ]; then
   # sensitivity of the rule set: seeded breaking changes analysed on scratch copies (informational)
   ./sensitivity.sh "$ID" || true
